@@ -12,7 +12,7 @@ ENGINES = {
                "generator-knows-the-answer monitors over zone/hosts text, merge oracles, real CLI binaries, crash monitor"),
     "e_cache": ("harness/src/bin/e_cache.rs", ["C05", "C15"],
                 "history monitor: operation sequences on the real cache under a virtual clock vs a sequential model; structural self-check; thread stress with conservation accounting"),
-    "e_netsim": ("harness/src/bin/e_netsim.rs", ["C01", "C06", "C07", "C08", "C10", "C18"],
+    "e_netsim": ("harness/src/bin/e_netsim/main.rs", ["C01", "C06", "C07", "C08", "C10", "C18"],
                  "fake network under tokio's paused clock: generated DNS universes, fault plans, exchange-log monitors"),
     "e_blackbox": ("harness/src/bin/e_blackbox.rs", ["C09", "C19"],
                    "real resolved binary over loopback sockets: exactly-once accounting, framing rules, reload generations"),
